@@ -22,7 +22,20 @@ RULE = ("interactions: chains of 4..9 beads built through the Topology API in "
         "on rmin+i*step. splines: Lin/Cubic/Akima Interpolate (natural, "
         "periodic) and Fit on grids of 2..400 knots; central differences "
         "strictly inside intervals, one-sided 4-point differences at knots "
-        "(either side accepted). A case is non-trivial when: angle with "
+        "(either side accepted); all boundary settings (natural, periodic, "
+        "derivativezero where implemented; setBC and setBCInt) for all three "
+        "types and for Fit; 4 evaluation points per spline OUTSIDE the grid "
+        "(left and right, 1e-3..3 grid lengths away), judged by central "
+        "differences of the reported value there "
+        "(spline/*/derivative-outside-grid; the rounding floor uses the "
+        "magnitudes of the terms of the extrapolated end polynomial). "
+        "Potential objects are reused (pot-reuse/*): parameters replaced once "
+        "or twice through setParam(i), setParam(vector) or setOptParam, for "
+        "the LJ forms also min/cut-off; F, DF and the full (i,j) square of "
+        "D2F must equal those of a fresh object bit for bit; the table is "
+        "then written by the reused object. Table sizes: an integer number "
+        "of steps up to rounding (decimal grids such as 0.1:0.1:0.8) must "
+        "give round((rcut-rmin)/step)+1 rows. A case is non-trivial when: angle with "
         "bond lengths differing by >1% and |theta-90deg| > 0.01; any bond / "
         "dihedral; potential derivative that is non-zero and resolved to "
         "1e-3; spline with non-constant ordinates. distinct = hash of the "
@@ -70,6 +83,12 @@ def run(chk):
         "below 0.45 of the shortest box height (no image decision involved)",
         "CBSPL::SavePotTab first extrapolates the excluded knots (documented "
         "behaviour); the table is compared with CalculateF after that call",
+        "D2F is queried over the full index square (i,j) and (j,i); each entry "
+        "is compared with the numerical derivative of DF(i) w.r.t. parameter "
+        "j and with its transpose",
+        "outside the grid VOTCA extrapolates the end polynomial; value and "
+        "derivative were found consistent there for every type / boundary "
+        "setting on the unchanged tree",
         "IAngle end-bead gradients, the central-bead gradient and the "
         "gradient sum are three separate violation keys"]
 
